@@ -6,8 +6,9 @@ import (
 
 func init() {
 	c14Payloader = func(c *Ctx) {
-		n := fragmentLayout(c, "codecs.(*H265Payloader).Payload", h265FU, "H265 FU", "", 1)
-		c.R.Floor("H265 FU header rows", n, 3)
+		if n := fragmentLayout(c, "codecs.(*H265Payloader).Payload", h265FU, "H265 FU", "", 1); n >= 0 {
+			c.R.Floor("H265 FU header rows", n, 3)
+		}
 	}
 	c14Parsers = func(c *Ctx) {
 		p, r := c.Prog, c.R
